@@ -37,7 +37,7 @@ OPS = st.one_of(
 
 @st.composite
 def params(draw, tier):
-    src = draw(st.sampled_from(["realise", "realise", "se", "wkt", "tess", "skeleton", "raster"]))
+    src = draw(st.sampled_from(["realise", "realise", "se", "wkt", "tess", "skeleton", "raster", "raster", "raster"]))
     p = {"source": src}
     if src in ("realise", "se", "wkt"):
         p.update(draw(gen.tissue_params(kinds=("voronoi", "moebius"), lattices=("hex", "square"), max_cells=20,
@@ -62,6 +62,10 @@ def params(draw, tier):
         p["ncells"] = draw(st.integers(4, 14))
         p["sym"] = draw(st.integers(0, 7))
         p["twice"] = draw(st.booleans())
+        # raw line raster: junction pixels are not minimal, the parser has to merge the corner artefacts
+        p["raw"] = draw(st.booleans())
+        # strongly irregular tissue: very short walls, near four-way contacts, neighbouring corner artefacts
+        p["wild"] = draw(st.sampled_from([False, True, True]))
     p["ops"] = draw(st.lists(OPS, min_size=1, max_size=6))
     return p
 
@@ -94,7 +98,7 @@ def construct(p, tmpdir):
             R = realise(t2, nint, gen.lab_of(p))
             return R.vertices, R.edges, R.cells
         if src == "se":
-            m = se_writer.model_from_tissue(t, nint, p["wseed"], orphans=p["wseed"] % 3)
+            m = se_writer.model_from_tissue(t, nint, p["wseed"], orphans=p["wseed"] % 4)
             fn = os.path.join(tmpdir, "x.dmp")
             with open(fn, "w", newline="") as f:
                 f.write(se_writer.write_dump(m, wrap=3 + p["wseed"] % 9))
@@ -117,7 +121,7 @@ def construct(p, tmpdir):
         return call(sk.create_lattice)
     # synthetic raster
     from .. import raster
-    img = raster.make_image(p["rseed"], p["ncells"])
+    img = raster.make_image(p["rseed"], p["ncells"], thinning=not p.get("raw"), wild=bool(p.get("wild")))
     if img is None:
         raise gen.Degenerate("raster preconditions not met")
     arr = raster.apply_symmetry(img["array"], p["sym"])
@@ -135,7 +139,7 @@ def check_case(p, ctx):
     tmpdir = tempfile.mkdtemp(prefix="c09_")
     try:
         v, e, c = construct(p, tmpdir)
-        ctx.count("source:" + p["source"])
+        ctx.count("source:" + p["source"] + (":raw-raster" if p.get("raw") else "") + (":wild" if p.get("wild") else ""))
         probs = mesh_problems(v, e, c)
         if probs:
             return ctx.violation("after-construction:" + p["source"], p, observed=probs[:3], expected="consistent mesh")
@@ -181,7 +185,7 @@ def check_case(p, ctx):
 
 
 def run(ctx):
-    drive(ctx, params(ctx.tier), check_case, ctx.budget(quick=160, thorough=500), label="path")
+    drive(ctx, params(ctx.tier), check_case, ctx.budget(quick=200, thorough=500), label="path")
 
 
 CASES = {"path": check_case}
